@@ -40,6 +40,9 @@ def run_both(ck, cases, release=False):
         c['m_raw'], c['r_raw'] = m, r
         c['m'], c['r'] = parse(m), parse(r)
         ck.count('compared')
+        if c['r'].get('verdict') == 'abort':
+            # never acceptable: the library took the whole process down (allocation failure, stack overflow) instead of returning
+            ck.violation('oracle', 'the implementation aborted the process on this input (%s)' % c['r'].get('why'), replay_dict(c))
         # error classes are recorded (which model error branches the inputs reach) but never gate a verdict
         mw, rw = c['m'].get('why'), c['r'].get('why')
         if mw is not None:
@@ -423,6 +426,12 @@ def xz_mutants(rng, f, per_file):
     add('index crc', tweak={'index_crc': rng.below(1 << 32)})
     others = [c for c in (0, 1, 4) if c != check]
     add('footer flags differ', tweak={'fcheck_byte': rng.choice(others)})
+    # header and footer flags that differ only in bits a sloppy parser might mask off, and reserved bits set on one side only
+    hi = rng.choice([0x10, 0x20, 0x40, 0x80, 0xF0])
+    add('footer flags differ in the high nibble', tweak={'fcheck_byte': check | hi})
+    add('header flags differ in the high nibble', tweak={'check_byte': check | hi, 'fcheck_byte': check})
+    add('footer first flag byte differs', tweak={'fflag0': rng.choice([1, 2, 0x80, 0xFF])})
+    add('header first flag byte differs', tweak={'flag0': rng.choice([1, 2, 0x80, 0xFF]), 'fflag0': 0})
     real_bs = None
     for delta in (1, -1, 1 << 30, 1 << 31, (1 << 32) - 1):
         add('backward size %+d' % delta, tweak={'backward_size': (_index_words(f) - 1 + delta) & 0xFFFFFFFF})
@@ -844,12 +853,12 @@ def run_C08(ck):
         if enc is None: raise InfraError('reference encoder rejected a C08 program')
         b, out = enc; T = meta['n']
         payload = b[13:]
-        for hsize in ['ones', T, T - 1, T + 1, 0, 1 << 63]:
+        for hsize in ['ones', T, T - 1, T + 1, 0, 1 << 63, T + (1 << 32), T + (rng.range(2, 1000) << 32)]:    # incl. sizes equal to the true one modulo 2^32
             field = ALL_ONES if hsize == 'ones' else max(0, hsize)
             for trailing in ([b''] if not quick or rng.chance(2, 3) else []) + ([rng.bytes(rng.range(1, 9))] if rng.chance(1, 3) else []):
                 opts = [('rfh', None if hsize == 'ones' else field, 13)]
                 opts.append(('rhp:none', None, 13))
-                for nn in (T, T - 1, T + 1, 0):
+                for nn in (T, T - 1, T + 1, 0, T + (1 << 32), T + (1 << 40)):
                     if nn >= 0 and rng.chance(1, 2):
                         opts.append(('rhp:%d' % nn, nn, 13)); opts.append(('up:%d' % nn, nn, 5))
                 opts.append(('up:none', None, 5))
@@ -928,14 +937,27 @@ def run_C09(ck):
         if mode == 0:      # header API, window 4096, sometimes after the window has wrapped
             pbld = random_program(rng, 400 if rng.chance(1, 4) else rng.range(0, 30), 4096, lit_bias=1, until=rng.choice([0, 5, 4000, 4096, 4097, 8200, 12288]))
             desc = bad_copy(pbld, 4096)
-            reqs.append('ref_lzma lenient=1 lc=%d lp=%d pb=%d dict=%d size=none prog=%s' % (lc, lp, pb3, rng.choice([0, 4096]), pbld.text()))
-            metas.append({'api': 'lzma', 'desc': desc, 'produced': pbld.n})
+            # half of the streams declare exactly produced + copy length: a decoder that wrongly performs the copy then
+            # finishes successfully with fabricated bytes instead of failing later for lack of input
+            last = pbld.syms[-1]
+            blen = 1 if last == 'S' else int(last.split(',')[1])
+            room = rng.chance(1, 2)
+            reqs.append('ref_lzma lenient=1 lc=%d lp=%d pb=%d dict=%d size=%s prog=%s' % (lc, lp, pb3, rng.choice([0, 4096]), str(pbld.n + blen) if room else 'none', pbld.text()))
+            metas.append({'api': 'lzma', 'desc': desc, 'produced': pbld.n, 'room_for_copy': room})
+            # a memory limit below the dictionary size must not change which copies are legal (only when decoding stops)
+            last = pbld.syms[-1]
+            if last[0] == 'M' and rng.chance(1, 2):
+                d_ = int(last[1:].split(',')[0])
+                if d_ < (1 << 31):
+                    metas[-1]['mem'] = rng.choice([d_, d_ + 1, d_ + rng.range(1, 300), max(d_, 4095), 2 * d_ + 7])     # often below the 4096 dictionary
         elif mode == 1:    # raw API, tiny dictionaries
             d = rng.choice([1, 2, 3, 4, 5, 8])
             pbld = random_program(rng, rng.range(0, 40), d, lit_bias=2)
             desc = bad_copy(pbld, d)
+            last = pbld.syms[-1]
+            blen = 1 if last == 'S' else int(last.split(',')[1])
             reqs.append('ref_payload lenient=1 lc=%d lp=%d pb=%d window=%d prog=%s' % (lc, lp, pb3, d, pbld.text()))
-            metas.append({'api': 'raw', 'dict': d, 'props': (lc, lp, pb3), 'desc': desc, 'produced': pbld.n})
+            metas.append({'api': 'raw', 'dict': d, 'props': (lc, lp, pb3), 'desc': desc, 'produced': pbld.n, 'size': str(pbld.n + blen) if rng.chance(1, 2) else 'none'})
         else:              # LZMA2: distance reaching before the last dictionary reset
             lc, lp, pb3 = rand_props(rng, lzma2=True)
             pre = rng.bytes(rng.range(1, 50))
@@ -995,10 +1017,11 @@ def run_C09(ck):
             ck.count('api_lzma2_matched_literal'); continue
         b, out = enc
         if meta['api'] == 'lzma':
-            line = 'lzma_dec opt=rfh in=%s' % hx(b)
+            line = 'lzma_dec opt=rfh %sin=%s' % ('mem=%d ' % meta['mem'] if 'mem' in meta else '', hx(b))
+            if 'mem' in meta: ck.count('lzma_with_memlimit')
         elif meta['api'] == 'raw':
             lc, lp, pb3 = meta['props']
-            line = 'raw_lzma lc=%d lp=%d pb=%d dict=%d size=none ops=d:%s' % (lc, lp, pb3, meta['dict'], hx(b))
+            line = 'raw_lzma lc=%d lp=%d pb=%d dict=%d size=%s ops=d:%s' % (lc, lp, pb3, meta['dict'], meta.get('size', 'none'), hx(b))
         else:
             line = 'lzma2_dec in=%s' % hx(b)
             # the lenient serialiser declares produced + 1 bytes for the chunk that ends in the bad copy; a decoder that
